@@ -16,6 +16,7 @@ import Driver.C03
 import Driver.C02
 import Driver.C13
 import Driver.C14
+import Driver.C01
 /-! Line-protocol driver. Usage: `drv <property>`; stdin: `op args… | impl-output`;
     stdout: one `MISMATCH`/`MONITOR` line per problem and a final `DONE` summary with coverage tags. -/
 open Drv
@@ -111,6 +112,7 @@ def main (args : List String) : IO UInt32 := do
   | ["C14"] => finish (← loopStateless (Drv.C14.step Drv.C14.asImpl) h {})
   | ["C14", "noguard"] => finish (← loopStateless (Drv.C14.step { Drv.C14.asImpl with guard := false }) h {})
   | ["C14", "ideal"] => finish (← loopStateless (Drv.C14.step Drv.C14.idealQ) h {})
+  | "C01" :: qs => finish (← loopStateless (Drv.C01.step (Drv.C01.quirksOf qs)) h {})
   | ["inrange"] => finish (← loopStateless Drv.Store.inRangeStep h {})
   | ["store", prop] => finish (← loopStateful (Drv.Store.step prop) h {} {})
   | _ => IO.eprintln "usage: drv <property>"; return 2
